@@ -57,13 +57,16 @@ pub fn open_for(prop: &str) -> Vec<Finding> {
 
 /// Trigger predicates for the history engine. Unknown trigger names never match (so a
 /// finding whose trigger is not implemented suppresses nothing).
-pub fn hist_trigger_matches(trigger: &str, cfg: &Cfg, t: &Tree, op: &Op) -> bool {
+pub fn hist_trigger_matches(trigger: &str, cfg: &Cfg, t: &Tree, op: &Op, ex: &crate::hist::ExCtx) -> bool {
     match trigger {
-        // OverlayFS::remove_file on an *empty directory* succeeds (pinned by the repository's
-        // own test impls::overlay::tests::read_dir_removed_entries)
+        // OverlayFS::remove_file on an *empty directory that exists only in a lower layer*
+        // succeeds (pinned by the repository's own test
+        // impls::overlay::tests::read_dir_removed_entries). A directory that (also) lives in the
+        // upper layer is refused correctly by the upper layer itself and stays in the domain.
         "overlay:remove_file:target-is-empty-directory" => {
             cfg.contains_overlay()
-                && matches!(op, Op::RemoveFile(p) if t.is_dir(p) && !t.has_children(p) && !p.is_empty())
+                && matches!(op, Op::RemoveFile(p) if t.is_dir(p) && !t.has_children(p) && !p.is_empty()
+                    && (ex.lower_only.contains(p) || cfg.has_nested_overlay()))
         }
         _ => false,
     }
@@ -75,9 +78,9 @@ pub const HIST_TRIGGERS: [&str; 1] = ["overlay:remove_file:target-is-empty-direc
 pub fn hist_excluder(prop: &str) -> Box<crate::hist::Excluder> {
     let listed: Vec<String> = open_for(prop).into_iter().map(|f| f.trigger).collect();
     let open: Vec<&'static str> = HIST_TRIGGERS.iter().copied().filter(|t| listed.iter().any(|l| l == t)).collect();
-    Box::new(move |cfg, t, op| {
+    Box::new(move |cfg, t, op, ex| {
         for trig in &open {
-            if hist_trigger_matches(trig, cfg, t, op) {
+            if hist_trigger_matches(trig, cfg, t, op, ex) {
                 return Some(*trig);
             }
         }
